@@ -231,6 +231,23 @@ int vh_vdata(void)
 	result(rc == 0);
 	return 0;
     }
+    /* the object's own vector handed back to a setter (the documented way to obtain one is vnadata_get_z0_vector /
+     * vnadata_get_fz0_vector): set_z0_vector_own f = set_z0_vector(v, get_fz0_vector(v, f)),
+     * set_fz0_vector_own f g = set_fz0_vector(v, f, g < 0 ? get_z0_vector(v) : get_fz0_vector(v, g)) */
+    if (strcmp(op, "set_z0_vector_own") == 0 || strcmp(op, "set_fz0_vector_own") == 0) {
+	int rc, fz = op[4] == 'f';
+	int nf = vnadata_get_frequencies(v);
+	long f = vh_parse_long(a[0]), g = fz ? (na == 2 ? vh_parse_long(a[1]) : -2) : f;
+	const double complex *z;
+	if (na != (fz ? 2 : 1)) return -1;
+	if (g < -1 || g >= nf || (g == -1 && (!fz || vnadata_has_fz0(v)))) return -1;	/* the source must exist */
+	LIB(z = g < 0 ? vnadata_get_z0_vector(v) : vnadata_get_fz0_vector(v, (int)g));
+	if (z == NULL && (vnadata_get_rows(v) > 0 || vnadata_get_columns(v) > 0)) return -1;
+	if (fz) LIB(rc = vnadata_set_fz0_vector(v, (int)f, z));
+	else LIB(rc = vnadata_set_z0_vector(v, z));
+	result(rc == 0);
+	return 0;
+    }
     if (strcmp(op, "has_fz0") == 0) {
 	bool b;
 	LIB(b = vnadata_has_fz0(v));
